@@ -76,7 +76,7 @@ Stmts == <<
   \* a long string held by two variables (once by assignment of the variable, once from the same literal), amended with a
   \* character, indexed, taken from and reversed
   Asg("a", Lit(LongS)), Asg("d", Lit(LongS)), Asg("c", Dy(":=", Var("a"), Lit(L(<<C(81), I(4)>>)))),
-  Asg("e", Dy("@", Var("a"), Lit(I(4)))), Asg("e", Dy("#", Lit(I(9)), Var("d"))), Asg("e", Dy("@", Var("d"), Lit(Ints(<<4, 10>>)))),
+  Asg("e", Dy("@", Var("a"), Lit(I(4)))), Asg("e", Dy("#", Lit(I(7)), Var("d"))), Asg("e", Dy("@", Var("d"), Lit(Ints(<<4, 10>>)))),
   Asg("b", Dy(":=", Var("d"), Lit(L(<<C(90), I(10)>>))))
 >>
 
@@ -116,6 +116,9 @@ Exec(i) ==
                                                post |-> Snap(g2, m2, p2, h2)])
                 ELSE hist
 
+AllStmts == {}
+\* the alias b::a and the seven long-string statements at the end of Stmts
+StringStmts == {3} \cup {i \in 1..Len(Stmts) : i > Len(Stmts) - 7}
 Next == \E i \in (IF Only = {} THEN 1..Len(Stmts) ELSE Only) : Exec(i)
 
 \* the frame condition, as an action property: a statement changes at most the one variable it assigns, in one scope
